@@ -84,16 +84,21 @@ def run(ctx):
         conds = F.dominating_conds(pp, d[1])
         old = new = False
         for cd in conds:
-            if L.cmp_is(cd, L.ends('.timestamp'), 'Ge', lambda e: e.mentions_call(r'::saturating_sub$') is not None):
-                ss = cd.lhs.mentions_call(r'::saturating_sub$') or cd.rhs.mentions_call(r'::saturating_sub$')
-                v = _cv(prog, ss.b[1]) if ss is not None and len(ss.b) > 1 else None
-                old = v is not None and v <= 300
-            if L.cmp_is(cd, L.ends('.timestamp'), 'Le', lambda e: e.strip().k == 'bin' and e.strip().a == 'Add'):
-                side = cd.rhs.strip() if cd.rhs.strip().k == 'bin' else cd.lhs.strip()
-                v = _cv(prog, side.c) if _cv(prog, side.c) is not None else _cv(prog, side.b)
-                new = v is not None and v <= 30
-        ctx.ob('WINDOW', 'parse:some#%d:not-older-than-300s' % i, old, pp.where(d[3].get('ln')), 'Some(event) dominated by timestamp >= now.saturating_sub(<=300): %s' % old)
-        ctx.ob('WINDOW', 'parse:some#%d:not-newer-than-30s' % i, new, pp.where(d[3].get('ln')), 'Some(event) dominated by timestamp <= now + (<=30): %s' % new)
+            if cd.kind != 'cmp' or cd.op not in ('Lt', 'Le', 'Gt', 'Ge'):
+                continue
+            fl, fr = _lin(prog, cd.lhs), _lin(prog, cd.rhs)
+            if fl is None or fr is None:
+                continue
+            g = {k: fl.get(k, 0) - fr.get(k, 0) for k in ('T', 'N', 1)}
+            if cd.op in ('Lt', 'Le'):
+                g = {k: -v for k, v in g.items()}
+            # the fact on this path:  g.T*timestamp + g.N*now + g.1 >= 0   (saturating ops read as plain +/-)
+            if g['T'] == 1 and g['N'] == -1 and 0 <= g[1] <= 300:
+                old = True          # timestamp >= now - c, c <= 300
+            if g['T'] == -1 and g['N'] == 1 and 0 <= g[1] <= 30:
+                new = True          # timestamp <= now + c, c <= 30
+        ctx.ob('WINDOW', 'parse:some#%d:not-older-than-300s' % i, old, pp.where(d[3].get('ln')), 'Some(event) dominated by a comparison that implies timestamp >= now - c with c <= 300: %s' % old)
+        ctx.ob('WINDOW', 'parse:some#%d:not-newer-than-30s' % i, new, pp.where(d[3].get('ln')), 'Some(event) dominated by a comparison that implies timestamp <= now + c with c <= 30: %s' % new)
     ctx.floor('WINDOW', 2)
     decp = pp.calls(r'postcard::from_bytes$')
     okd = bool(decp) and pp.expr(decp[0].args[0]).strip().show() == 'bytes'
@@ -165,6 +170,40 @@ def run(ctx):
     ctx.stats['panic_sites'] = nsites
     ctx.ob('PANIC-SITES', 'reachable-set', len(E) >= 150, '-', '%d bodies reachable from the inbound entry points were scanned (%d potential panic sites)' % (len(E), nsites))
     ctx.floor('PANIC-SITES', 3)
+
+
+def _lin(prog, e):
+    """expression as a linear form {T: a, N: b, 1: c} over T = the decoded message's timestamp and N = the clock read;
+    saturating / wrapping / checked-by-debug-assert arithmetic is read as plain + and - (necessary-condition reading)"""
+    x = e.strip()
+    while x.k == 'let':
+        x = x.c.strip()
+    if x.k == 'cast' and str(x.a).startswith('IntToInt'):
+        return _lin(prog, x.b)
+    cv = _cv(prog, x)
+    if cv is not None and not isinstance(cv, bool):
+        return {1: cv}
+    if x.k == 'field' and isinstance(x.b, str) and x.b.endswith('::timestamp'):
+        return {'T': 1}
+    if x.k == 'field' and x.b == '::0' and x.a.strip().k == 'bin':
+        return _lin(prog, x.a)
+
+    def comb(a, b, sign):
+        if a is None or b is None:
+            return None
+        return {k: a.get(k, 0) + sign * b.get(k, 0) for k in ('T', 'N', 1)}
+    if x.k == 'bin' and x.a in ('Add', 'AddWithOverflow', 'AddUnchecked'):
+        return comb(_lin(prog, x.b), _lin(prog, x.c), +1)
+    if x.k == 'bin' and x.a in ('Sub', 'SubWithOverflow', 'SubUnchecked'):
+        return comb(_lin(prog, x.b), _lin(prog, x.c), -1)
+    if x.k == 'call' and re.search(r'::(saturating|wrapping)_sub$', x.a) and len(x.b) == 2:
+        return comb(_lin(prog, x.b[0]), _lin(prog, x.b[1]), -1)
+    if x.k == 'call' and re.search(r'::(saturating|wrapping)_add$', x.a) and len(x.b) == 2:
+        return comb(_lin(prog, x.b[0]), _lin(prog, x.b[1]), +1)
+    if x.mentions_call(r'SystemTime::now$') is not None and not any(
+            y.k == 'field' and isinstance(y.b, str) and y.b.endswith('::timestamp') for y in x.walk()):
+        return {'N': 1}
+    return None
 
 
 def discharge(prog, b, kind, bb, obj):
